@@ -214,7 +214,7 @@ def k_seqlogos(ctx, seqs):
         _close_figs()
 
 
-def k_rankfrequency(ctx, data, normalize_x, normalize_y, scalex, scaley, log_x=True, log_y=True):
+def k_rankfrequency(ctx, data, normalize_x, normalize_y, scalex, scaley, log_x=True, log_y=True, dtype=None):
     import matplotlib.pyplot as plt
     import numpy as np
     import pyrepseq.plotting as pp
@@ -233,7 +233,11 @@ def k_rankfrequency(ctx, data, normalize_x, normalize_y, scalex, scaley, log_x=T
     fig, ax = plt.subplots()
     if len(vals) % 3 == 0:
         ctx.count("plots_on_implicit_axes")
-    out = ctx.call(pp.rankfrequency, np.array(vals), ax=(None if len(vals) % 3 == 0 else ax), normalize_x=normalize_x, normalize_y=normalize_y, scalex=scalex, scaley=scaley,
+    arr = np.array(vals)
+    if dtype:
+        arr = np.array([int(v) for v in vals], dtype=dtype)          # count vectors as integer arrays of any width / signedness
+        ctx.count("rankfrequency_integer_dtype_cases")
+    out = ctx.call(pp.rankfrequency, arr, ax=(None if len(vals) % 3 == 0 else ax), normalize_x=normalize_x, normalize_y=normalize_y, scalex=scalex, scaley=scaley,
                    log_x=log_x, log_y=log_y)
     try:
         key = f"rankfrequency:nx{int(normalize_x)}ny{int(normalize_y)}"
@@ -489,6 +493,11 @@ def generate(tier, seed):
                 yield "regex", {"seqs": heavy}, i < 15
         if i % 5 == 1 and not gaps:
             yield "seqlogos", {"seqs": seqs}, i < 12
+    # integer count vectors (with empty clonotypes, i.e. zeros) in every integer dtype
+    for j, dt in enumerate(["uint8", "int8", "uint16", "int32", "uint32", "uint64", "int64"]):
+        for nx in (False, True):
+            yield "rankfrequency", {"data": [5, 0, 3, 3, 0, 10, 1, 100], "normalize_x": nx, "normalize_y": j % 2 == 0, "scalex": 1.0, "scaley": 1.0,
+                                    "log_x": False, "log_y": False, "dtype": dt}, True
     for i in range(300 * TS if thorough else 30):
         n = rng.randint(1, 40)
         data = [rng.choice([1, 1, 1, 2, 3, 5, 10, 100, 0.5]) for _ in range(n)]
@@ -516,6 +525,9 @@ def generate(tier, seed):
         elif i % 3 == 1:
             pts = [[p[0] - 2, p[1] * 0.5 - 1] for p in pts]          # negative and fractional coordinates
         yield "density", {"pts": pts, "sort": i % 4 != 0}, i < 10
+    # signed zeros: -0.0 and 0.0 are the same coordinate
+    yield "density", {"pts": [[0.0, 0.0], [-0.0, 0.0], [0.0, -0.0], [-0.0, -0.0], [1.0, 0.0], [1.0, -0.0], [0.0, 0.0], [2.0, 1.0]], "sort": True}, True
+    yield "density", {"pts": [[-0.0, 1.0], [0.0, 1.0], [0.0, 1.0], [-0.0, 2.0], [3.0, 2.0], [3.0, 2.0]], "sort": False}, True
     # long chains: summed distances beyond 255
     for i in range(6 if thorough else 2):
         rows = [[G.rand_string(rng, ["ACDEF", "GHIKL", "MNPQR"][j % 3], 140, 160), G.rand_string(rng, ["STVWY", "ACDEF", "GHIKL"][j % 3], 140, 160)] for j in range(6)]
@@ -528,7 +540,7 @@ def generate(tier, seed):
         rows = [[rng.choice(cells), rng.choice(cells)] for _ in range(n)]
         if i % 3 == 2:
             # content that aligns across the alpha/beta boundary when the two chains are concatenated
-            xc = ["CASSQET", "CAS", "SQETCAS", "CA", "SQET", "CASCAS", "ETCAS", "CASSQ"]
+            xc = ["CASSQET", "CAS", "SQETCAS", "CA", "SQET", "CASCAS", "ETCAS", "CASSQ", "CAS_SQ", "SQ_", "_CAS", "CAS_"]
             rows = [[rng.choice(xc), rng.choice(xc)] for _ in range(n)]
             rows[0], rows[1] = ["CASSQET", "CAS"], ["CAS", "SQETCAS"]
         yield "clustermap", {"rows": rows, "single": [None, None, "alpha", "beta"][i % 4], "index": [None, "string", "shifted"][i % 3],
